@@ -86,7 +86,14 @@ class Distortion:
             const = yr[0] / (np.tan(1e-10 *
                                     np.radians(self.optic.fields.max_field)))
 
-            if self.distortion_type == 'f-tan':
+            if self.optic.field_type == 'object_height':
+                # the fields are object heights, not angles: the ideal image
+                # height is the paraxial magnification times the height
+                if self.distortion_type not in ('f-tan', 'f-theta'):
+                    raise ValueError('''Distortion type must be "f-tan" or
+                                     "f-theta"''')
+                yp = yr[0] / 1e-10 * Hy
+            elif self.distortion_type == 'f-tan':
                 yp = const * np.tan(Hy *
                                     np.radians(self.optic.fields.max_field))
             elif self.distortion_type == 'f-theta':
